@@ -4,13 +4,438 @@ package entry
 
 import (
 	"encoding/json"
+	"fmt"
+	"math"
+
+	. "github.com/pbenner/autodiff"
+	. "github.com/pbenner/autodiff/statistics"
+	se "github.com/pbenner/autodiff/statistics/scalarEstimator"
+	ve "github.com/pbenner/autodiff/statistics/vectorEstimator"
+	tp "github.com/pbenner/threadpool"
 
 	"adharness/common"
 )
 
-// placeholder, replaced below
-func GenerateStatSeqs(rng *common.Rng, extra int) []SeqCase { return nil }
-func StatSeqNames() []string                               { return nil }
+// Statistics sequences (stream H, ids 200+): one ESTIMATOR object is the
+// persistent state; the script is
+//
+//	0 SetData(x1)            1 Estimate(gamma1)      2 d1 := GetEstimate()
+//	3 EstimateOnData(x2, gamma2)                     4 d2 := GetEstimate()
+//	5 c := Clone...Estimator()                       6 c.EstimateOnData(x3, nil)
+//
+// Data vectors are retained by design (SetData stores the ConstVector: role 5,
+// must never be written); the gamma vectors are plain inputs (role 0: neither
+// retained nor written); a returned distribution that shares storage with the
+// estimator is an alias (role 4, reported), otherwise it is protected; the
+// parameters of the original estimator are protected while its clone
+// estimates.
+
+type statDef struct {
+	id   int
+	name string
+	data int // 0 real, 1 positive, 2 counts 0..3
+	mk   func() (ScalarEstimator, error)
+	mkv  func(n int) (VectorEstimator, error)
+}
+
+var statDefs = []statDef{
+	{id: 200, name: "scalarEstimator.Normal", data: 0, mk: func() (ScalarEstimator, error) { return se.NewNormalEstimator(0, 1, 1e-8) }},
+	{id: 201, name: "scalarEstimator.Exponential", data: 1, mk: func() (ScalarEstimator, error) { return se.NewExponentialEstimator(1, 1e6) }},
+	{id: 202, name: "scalarEstimator.Geometric", data: 2, mk: func() (ScalarEstimator, error) { return se.NewGeometricEstimator(0.5) }},
+	{id: 203, name: "scalarEstimator.Poisson", data: 2, mk: func() (ScalarEstimator, error) { return se.NewPoissonEstimator(1) }},
+	{id: 204, name: "scalarEstimator.Categorical", data: 2, mk: func() (ScalarEstimator, error) {
+		return se.NewCategoricalEstimator([]float64{0.25, 0.25, 0.25, 0.25})
+	}},
+	{id: 205, name: "scalarEstimator.NegativeBinomial", data: 2, mk: func() (ScalarEstimator, error) { return se.NewNegativeBinomialEstimator(2, 0.5) }},
+	{id: 206, name: "scalarEstimator.Delta", data: 0, mk: func() (ScalarEstimator, error) { return se.NewDeltaEstimator(0) }},
+	{id: 207, name: "scalarEstimator.Mixture", data: 0, mk: func() (ScalarEstimator, error) {
+		a, _ := se.NewNormalEstimator(-1, 1, 1e-8)
+		b, _ := se.NewNormalEstimator(1, 1, 1e-8)
+		return se.NewMixtureEstimator([]float64{0.5, 0.5}, []ScalarEstimator{a, b}, 1e-6, 3)
+	}},
+	{id: 208, name: "scalarEstimator.LogTransform", data: 1, mk: func() (ScalarEstimator, error) {
+		a, _ := se.NewNormalEstimator(0, 1, 1e-8)
+		return se.NewLogTransformEstimator(a, 0.5)
+	}},
+	{id: 209, name: "scalarEstimator.Translation", data: 0, mk: func() (ScalarEstimator, error) {
+		a, _ := se.NewNormalEstimator(0, 1, 1e-8)
+		return se.NewTranslationEstimator(a, 0.5)
+	}},
+	{id: 220, name: "vectorEstimator.Normal", data: 0, mkv: func(n int) (VectorEstimator, error) {
+		mu := make([]float64, n)
+		sg := make([]float64, n*n)
+		for i := 0; i < n; i++ {
+			sg[i*n+i] = 1
+		}
+		return ve.NewNormalEstimator(mu, sg, 1e-8)
+	}},
+	{id: 221, name: "vectorEstimator.ScalarIid", data: 0, mkv: func(n int) (VectorEstimator, error) {
+		a, _ := se.NewNormalEstimator(0, 1, 1e-8)
+		return ve.NewScalarIid(a, -1)
+	}},
+	{id: 222, name: "vectorEstimator.ScalarId", data: 0, mkv: func(n int) (VectorEstimator, error) {
+		es := make([]ScalarEstimator, n)
+		for i := range es {
+			es[i], _ = se.NewNormalEstimator(0, 1, 1e-8)
+		}
+		return ve.NewScalarId(es...)
+	}},
+}
+
+var statByID = map[int]*statDef{}
+
+func init() {
+	for i := range statDefs {
+		statByID[statDefs[i].id] = &statDefs[i]
+	}
+}
+
+// StatSeqNames lists the estimators run as sequences.
+func StatSeqNames() []string {
+	var r []string
+	for _, d := range statDefs {
+		r = append(r, d.name)
+	}
+	return r
+}
+
+// StatSpec re-creates a statistics sequence.
+type StatSpec struct {
+	Stat  int     `json:"stat"` // id >= 200
+	Var   int     `json:"var"`
+	N     int     `json:"n"`    // observations per data set
+	Dim   int     `json:"dim"`  // vector estimators: dimension
+	Gamma int     `json:"gamma"` // bit k: call k gets a gamma vector
+	Real  bool    `json:"real"`  // data as DenseReal64Vector
+	Data  [][]string `json:"data"` // 3 data sets + 2 gamma vectors, hex
+}
+
+func statData(r *common.Rng, kind, n int) []float64 {
+	v := make([]float64, n)
+	for i := range v {
+		switch kind {
+		case 1:
+			v[i] = rpos(r)
+		case 2:
+			v[i] = float64(r.Intn(4))
+		default:
+			v[i] = rv(r)
+		}
+	}
+	return v
+}
+
+func hexs(v []float64) []string {
+	s := &Spec{}
+	s.setVals("x", v)
+	return s.Vals["x"]
+}
+func unhex(h []string) []float64 {
+	s := &Spec{Vals: map[string][]string{"x": h}}
+	return s.vals("x")
+}
+
+func genStat(d *statDef, r *common.Rng, v int) *StatSpec {
+	sp := &StatSpec{Stat: d.id, Var: v, N: r.Range(2, 5), Dim: 1, Gamma: r.Intn(4), Real: r.Intn(3) == 0}
+	if d.mkv != nil {
+		sp.Dim = r.Range(1, 3)
+	}
+	for k := 0; k < 3; k++ {
+		sp.Data = append(sp.Data, hexs(statData(r, d.data, sp.N*sp.Dim)))
+	}
+	for k := 0; k < 2; k++ {
+		g := make([]float64, sp.N)
+		for i := range g {
+			g[i] = math.Log(rpos(r) / 3)
+		}
+		sp.Data = append(sp.Data, hexs(g))
+	}
+	return sp
+}
+
+func mkData(real bool, v []float64) Vector {
+	if real {
+		return NewDenseReal64Vector(cp(v))
+	}
+	return NewDenseFloat64Vector(cp(v))
+}
+
+func snapDist(p BasicDistribution, lp func(x float64) float64) func() []float64 {
+	return func() (r []float64) {
+		defer func() {
+			if recover() != nil {
+				r = append(r, math.Inf(-1), -4)
+			}
+		}()
+		r = snapVector(nil, p.GetParameters())
+		if lp != nil {
+			r = append(r, lp(0.5), lp(2))
+		}
+		return r
+	}
+}
+
+// RunStatSeq executes a statistics sequence.
+func RunStatSeq(sp *StatSpec) (SeqCase, error) {
+	d := statByID[sp.Stat]
+	if d == nil {
+		return SeqCase{}, fmt.Errorf("unknown statistics sequence %d", sp.Stat)
+	}
+	raw, _ := json.Marshal(sp)
+	c := SeqCase{Entry: d.name, ID: d.id, Var: sp.Var, Spec: raw, Planned: 7}
+	pool := tp.ThreadPool{}
+	var objs []*seqObj
+	var refFps []Footprint
+	var retained []Footprint
+	var est, clone interface{}
+	var sest ScalarEstimator
+	var vest VectorEstimator
+	var err error
+	if d.mk != nil {
+		sest, err = d.mk()
+		est = sest
+	} else {
+		vest, err = d.mkv(sp.Dim)
+		est = vest
+	}
+	if err != nil || est == nil {
+		return SeqCase{}, fmt.Errorf("%s: constructor failed: %v", d.name, err)
+	}
+	k := 0
+	add := func(name string, role int, ref interface{}, snap func() []float64) *seqObj {
+		o := &seqObj{Name: fmt.Sprintf("%s#%d", name, k), Role: role, Born: k, snap: snap, keep: ref}
+		if ref != nil {
+			o.fp = footprintOf(ref)
+		}
+		if role == roleRetained {
+			retained = append(retained, o.fp)
+		}
+		o.Snaps = append(o.Snaps, snap())
+		objs = append(objs, o)
+		return o
+	}
+	// data sets: scalar estimators take one vector of N observations, vector estimators N vectors of length Dim
+	type dataset struct {
+		flat Vector
+		rows []ConstVector
+	}
+	mkSet := func(i int, name string) dataset {
+		v := unhex(sp.Data[i])
+		if d.mk != nil {
+			x := mkData(sp.Real, v)
+			add(name, roleRetained, x, func() []float64 { return snapVector(nil, x) })
+			return dataset{flat: x}
+		}
+		ds := dataset{}
+		for j := 0; j < sp.N; j++ {
+			x := mkData(sp.Real, v[j*sp.Dim:(j+1)*sp.Dim])
+			add(fmt.Sprintf("%s[%d]", name, j), roleRetained, x, func() []float64 { return snapVector(nil, x) })
+			ds.rows = append(ds.rows, x)
+		}
+		return ds
+	}
+	mkGamma := func(i int, name string, on bool) ConstVector {
+		if !on {
+			return nil
+		}
+		g := NewDenseFloat64Vector(unhex(sp.Data[i]))
+		add(name, roleInput, g, func() []float64 { return snapVector(nil, g) })
+		return g
+	}
+	withoutRetained := func(fp Footprint) Footprint {
+		var r Footprint
+		for _, s := range fp {
+			keep := true
+			for _, rf := range retained {
+				if (Footprint{s}).overlaps(rf) {
+					keep = false
+					break
+				}
+			}
+			if keep {
+				r = append(r, s)
+			}
+		}
+		return r
+	}
+	step := func(opt string, target interface{}, f func() ([]interface{}, error)) bool {
+		var rets []interface{}
+		outcome, msg := guarded(func() error {
+			var e error
+			rets, e = f()
+			return e
+		})
+		if outcome == "timeout" {
+			timeouts++
+			c.Timeout = true
+			return false
+		}
+		c.Outcomes = append(c.Outcomes, outcome)
+		c.Msgs = append(c.Msgs, msg)
+		c.Opts = append(c.Opts, opt)
+		after := withoutRetained(footprintOf(target))
+		refFps = append(refFps, after)
+		for _, o := range objs {
+			if o.Born <= k {
+				o.Snaps = append(o.Snaps, o.snap())
+			}
+		}
+		kk := k
+		k = kk + 1
+		for i, x := range rets {
+			if isNil(x) || x == nil {
+				continue
+			}
+			var sn func() []float64
+			switch p := x.(type) {
+			case ScalarPdf:
+				sn = snapDist(p, func(t float64) float64 {
+					r := NullFloat64()
+					if p.LogPdf(r, ConstFloat64(t)) != nil {
+						return math.Inf(-1)
+					}
+					return r.GetFloat64()
+				})
+			case BasicDistribution:
+				sn = snapDist(p, nil)
+			case BasicEstimator:
+				sn = func() []float64 { return snapVector(nil, p.GetParameters()) }
+			default:
+				continue
+			}
+			o := add(fmt.Sprintf("ret%d", i), roleReturned, x, sn)
+			o.Name = fmt.Sprintf("ret%d#%d", i, kk)
+			o.fp = withoutRetained(o.fp)
+			if o.fp.overlaps(after) {
+				o.Role = roleAlias
+				c.Aliases = append(c.Aliases, fmt.Sprintf("%s step %d (%s) ret%d", d.name, kk, opt, i))
+			}
+		}
+		return true
+	}
+	g := func(kbit int) bool { return sp.Gamma&(1<<uint(kbit)) != 0 }
+	ok := true
+	// 0 SetData
+	x1 := mkSet(0, "x1")
+	ok = ok && step("SetData", est, func() ([]interface{}, error) {
+		if sest != nil {
+			return nil, sest.SetData(x1.flat, sp.N)
+		}
+		return nil, vest.SetData(x1.rows, sp.N)
+	})
+	// 1 Estimate
+	if ok {
+		g1 := mkGamma(3, "gamma1", g(0))
+		ok = step("Estimate", est, func() ([]interface{}, error) {
+			return nil, est.(BasicEstimator).Estimate(g1, pool)
+		})
+	}
+	getEst := func(e interface{}) ([]interface{}, error) {
+		if s, y := e.(ScalarEstimator); y {
+			p, err := s.GetEstimate()
+			return []interface{}{p}, err
+		}
+		p, err := e.(VectorEstimator).GetEstimate()
+		return []interface{}{p}, err
+	}
+	// 2 GetEstimate
+	if ok {
+		ok = step("GetEstimate", est, func() ([]interface{}, error) { return getEst(est) })
+	}
+	// 3 EstimateOnData
+	if ok {
+		x2 := mkSet(1, "x2")
+		g2 := mkGamma(4, "gamma2", g(1))
+		ok = step("EstimateOnData", est, func() ([]interface{}, error) {
+			if sest != nil {
+				return nil, sest.EstimateOnData(x2.flat, g2, pool)
+			}
+			return nil, vest.EstimateOnData(x2.rows, g2, pool)
+		})
+	}
+	// 4 GetEstimate
+	if ok {
+		ok = step("GetEstimate", est, func() ([]interface{}, error) { return getEst(est) })
+	}
+	// 5 Clone
+	if ok {
+		ok = step("CloneEstimator", est, func() ([]interface{}, error) {
+			if sest != nil {
+				clone = sest.CloneScalarEstimator()
+			} else {
+				clone = vest.CloneVectorEstimator()
+			}
+			return []interface{}{clone}, nil
+		})
+	}
+	// 6 the clone estimates: the original's parameters are protected; the clone itself is now the
+	// caller's working object
+	if ok && clone != nil {
+		for _, o := range objs {
+			if o.keep == clone && o.Role == roleReturned {
+				o.Role = roleBuffer
+			}
+		}
+		x3 := mkSet(2, "x3")
+		e0 := est.(BasicEstimator)
+		add("original.parameters", roleInput, nil, func() (r []float64) {
+			defer func() {
+				if recover() != nil {
+					r = []float64{math.Inf(-1), -4}
+				}
+			}()
+			return snapVector(nil, e0.GetParameters())
+		})
+		step("clone.EstimateOnData", clone, func() ([]interface{}, error) {
+			if s, y := clone.(ScalarEstimator); y {
+				return nil, s.EstimateOnData(x3.flat, nil, pool)
+			}
+			return nil, clone.(VectorEstimator).EstimateOnData(x3.rows, nil, pool)
+		})
+	}
+	if len(refFps) == 0 {
+		return SeqCase{}, fmt.Errorf("%s: no call completed", d.name)
+	}
+	finishSeq(&c, objs, refFps)
+	return c, nil
+}
+
+// GenerateStatSeqs: every estimator once per gamma pattern (directed), then
+// `extra` rng-chosen ones.
+func GenerateStatSeqs(rng *common.Rng, extra int) []SeqCase {
+	var out []SeqCase
+	v := 0
+	for i := range statDefs {
+		for gpat := 0; gpat < 4; gpat++ {
+			sp := genStat(&statDefs[i], rng.Split(), v)
+			sp.Gamma = gpat
+			if c, err := RunStatSeq(sp); err == nil {
+				out = append(out, c)
+			}
+			v++
+		}
+	}
+	for i := 0; i < extra; i++ {
+		sp := genStat(&statDefs[i%len(statDefs)], rng.Split(), 1000+i)
+		if c, err := RunStatSeq(sp); err == nil {
+			out = append(out, c)
+		}
+	}
+	return out
+}
 
 // ReplaySeqAny re-runs an algorithm or a statistics sequence.
-func ReplaySeqAny(raw json.RawMessage) (SeqCase, error) { return ReplaySeq(raw) }
+func ReplaySeqAny(raw json.RawMessage) (SeqCase, error) {
+	var head struct {
+		Stat int `json:"stat"`
+	}
+	json.Unmarshal(raw, &head)
+	if head.Stat >= 200 {
+		var sp StatSpec
+		if err := json.Unmarshal(raw, &sp); err != nil {
+			return SeqCase{}, err
+		}
+		return RunStatSeq(&sp)
+	}
+	return ReplaySeq(raw)
+}
